@@ -262,7 +262,8 @@ impl FmtAttribute {
                     .args
                     .iter()
                     .nth(i)
-                    .and_then(|a| a.expr.ident().filter(|_| a.alias.is_none()))?
+                    // A named argument may be referred positionally too.
+                    .and_then(|a| a.expr.ident())?
                     .unraw()
                     .to_string(),
             };
@@ -315,7 +316,8 @@ impl FmtAttribute {
                     .args
                     .iter()
                     .nth(*i)
-                    .and_then(|a| a.expr.ident().filter(|_| a.alias.is_none()))
+                    // A named argument may be referred positionally too.
+                    .and_then(|a| a.expr.ident())
                     .map(ToString::to_string),
             }
             .as_deref()
